@@ -172,19 +172,23 @@ def normalise_function(fn):
 
     class A(ast.NodeTransformer):
         def visit_Assign(self, st):
-            if len(st.targets) == 1 and isinstance(st.targets[0], (ast.Subscript, ast.Attribute)) and isinstance(st.value, ast.BinOp) \
-                    and isinstance(st.value.op, (ast.Add, ast.Sub)):
+            val = st.value
+            # the new value may have been computed into a once-bound temporary first (`nxt = cur + c; ...; T = nxt`)
+            if isinstance(val, ast.Name) and val.id in single and isinstance(single[val.id], ast.BinOp):
+                val = single[val.id]
+            if len(st.targets) == 1 and isinstance(st.targets[0], (ast.Subscript, ast.Attribute)) and isinstance(val, ast.BinOp) \
+                    and isinstance(val.op, (ast.Add, ast.Sub)):
                 t = norm(st.targets[0])
-                l, r = st.value.left, st.value.right
+                l, r = val.left, val.right
 
                 def is_self(x):
                     if norm(x) == t:
                         return True
                     return isinstance(x, ast.Name) and x.id in single and norm(single[x.id]) == t
                 if is_self(l) and not is_self(r):
-                    return ast.copy_location(ast.AugAssign(target=st.targets[0], op=st.value.op, value=r), st)
-                if isinstance(st.value.op, ast.Add) and is_self(r) and not is_self(l):
-                    return ast.copy_location(ast.AugAssign(target=st.targets[0], op=st.value.op, value=l), st)
+                    return ast.copy_location(ast.AugAssign(target=st.targets[0], op=val.op, value=r), st)
+                if isinstance(val.op, ast.Add) and is_self(r) and not is_self(l):
+                    return ast.copy_location(ast.AugAssign(target=st.targets[0], op=val.op, value=l), st)
             return st
     new = A().visit(new)
     ast.fix_missing_locations(new)
